@@ -3,11 +3,15 @@ open Dp
 
 /-! Line protocol of the dispatch model (C02). One request per line, space separated `key=value` words after the kind:
 
-      get|http sbs=0|1 ops=s0,t1,… route=<rid>|- attrs=GET,POST~alt,…|- suffix=<s>|- combined=<COMBINED_METHODS>
-               hits=s0,t1,…|- method=<M> fields=k:v;k:v|- groups=s0>k:v;k:v|s3>…|-
+      get|http sbs=0|1|default ops=s0,t1,… route=<rid>|- attrs=GET,POST~alt,…|- suffix=<s>|- combined=<COMBINED_METHODS>
+               hits=s0,t1,…|- method=<M> fields=k:v;k:v|- gi=s0>name@1;other@3|s3>…|- grp=s0>1:text;2:text|s3>…|-
 
+    `sbs` is the `sink_before_static_route` argument of the constructor (`default` = not given).
+    `gi` is `pattern.groupindex` of every sink that has named groups (a property of the pattern), `grp` the groups that
+    PARTICIPATED in `pattern.match(path)` with their text (`m.group(i)`; possibly empty text); a group that is absent from
+    `grp` is Python `None`. The model computes `groupdict()` itself.
     `get`  = `App._get_responder` (method may be the meta method WEBSOCKET), `http` = the HTTP entry point.
-    Reply: `<responder> kw=<k:v;…|->` with responder one of
+    Reply: `<responder> kw=<k:v;k2;…|->` (sorted by key; `k:v` = text value, possibly empty; bare `k` = None) with responder one of
       resource:<rid>:<METHOD>[~suffix] | options:<allow,…> | 405:<allow,…> | 400 | sink:<id> | static:<id> | 404 -/
 
 def kv (ws : List String) (k : String) : String :=
@@ -30,10 +34,20 @@ def parseAttr (s : String) : Attr :=
 def parseKw (s : String) : Kw :=
   (splitNE s ";").filterMap fun it =>
     match it.splitOn ":" with
-    | k :: rest => some (k, ":".intercalate rest)
+    | [k] => some (k, none)
+    | k :: rest => some (k, some (":".intercalate rest))
     | [] => none
 
-def showKw (k : Kw) : String := if k.isEmpty then "-" else ";".intercalate (k.map fun (a, b) => a ++ ":" ++ b)
+def showKw (k : Kw) : String :=
+  if k.isEmpty then "-" else
+    ";".intercalate ((k.mergeSort fun a b => a.1 ≤ b.1).map fun (a, b) => match b with | some v => a ++ ":" ++ v | none => a)
+
+/-- `s3>body|s5>body` → table sink id ↦ body items -/
+def parseTab (s : String) : List (Nat × List String) :=
+  (splitNE s "|").filterMap fun g =>
+    match g.splitOn ">" with
+    | sid :: rest => (parseEntry sid).map fun e => (e.2, splitNE (">".intercalate rest) ";")
+    | [] => none
 
 def showR (sfx : Option String) : Responder → String
   | .resource rid m => s!"resource:{rid}:{m}" ++ (match sfx with | some s => "~" ++ s | none => "")
@@ -47,7 +61,7 @@ def showR (sfx : Option String) : Responder → String
 def runCase (kind : String) (ws : List String) : String :=
   let ops := (splitNE (kv ws "ops") ",").filterMap parseEntry
   let app := ops.foldl (fun a e => match e with | (.sink, id) => a.addSink id | (.static, id) => a.addStatic id)
-    ({ sinkFirst := kv ws "sbs" == "1" } : App)
+    (App.init (if kv ws "sbs" == "default" then none else some (kv ws "sbs" == "1")))
   let hits := (splitNE (kv ws "hits") ",").filterMap parseEntry
   let sfx : Option String := if kv ws "suffix" == "-" || kv ws "suffix" == "" then none else some (kv ws "suffix")
   let route : Option MethodMap :=
@@ -55,16 +69,23 @@ def runCase (kind : String) (ws : List String) : String :=
     | some rid => some (mkMethodMap rid (splitNE (kv ws "combined") ",") ((splitNE (kv ws "attrs") ",").map parseAttr) sfx)
     | none => none
   let hitf : Kind × Nat → Bool := fun e => hits.contains e
-  let groupTab : List (Nat × Kw) := (splitNE (kv ws "groups") "|").filterMap fun g =>
-    match g.splitOn ">" with
-    | [sid, body] => (parseEntry sid).map fun e => (e.2, parseKw body)
-    | _ => none
-  let groups : Nat → Kw := fun id => ((groupTab.find? (·.1 == id)).map (·.2)).getD []
+  let giTab := parseTab (kv ws "gi")
+  let grpTab := parseTab (kv ws "grp")
+  let mtab : Nat → Match := fun id =>
+    let gi : List (String × Nat) := (((giTab.find? (·.1 == id)).map (·.2)).getD []).filterMap fun it =>
+      match it.splitOn "@" with
+      | [n, i] => i.toNat?.map fun k => (n, k)
+      | _ => none
+    let grp : List (Nat × String) := (((grpTab.find? (·.1 == id)).map (·.2)).getD []).filterMap fun it =>
+      match it.splitOn ":" with
+      | i :: rest => i.toNat?.map fun k => (k, ":".intercalate rest)
+      | [] => none
+    { groupindex := gi, group := fun i => (grp.find? (·.1 == i)).map (·.2) }
   let method := kv ws "method"
   let r := if kind == "http" then app.dispatchHttp route method hitf else app.getResponder route method hitf
   -- the keyword arguments only reach a responder that is actually called with them
   let kw := match r with
-    | .resource .. | .sink .. | .static .. => app.getParams (route.map fun _ => parseKw (kv ws "fields")) hitf groups
+    | .resource .. | .sink .. | .static .. => app.getParamsM (route.map fun _ => parseKw (kv ws "fields")) hitf mtab
     | _ => []
   showR sfx r ++ " kw=" ++ showKw kw
 
